@@ -1,28 +1,30 @@
 (* Properties/C04.v -- uncommitted AI work is carried to the commit that finally contains it, once
-   (the pure split at the heart of the property: one file, one commit).
+   (the pure split at the heart of the property: one file, one commit; and the carry step).
    Only statements; every proof is `exact <lemma>` followed by Print Assumptions.
    Statements are pinned in /verif/statements.lock.
 
    Setting.  A file version is a list of pairwise distinct line ids: P parent, C commit,
-   W work tree.  committed P C / unstaged C W / pure_ins C W are the added-line numbers that
-   `git diff -U0` reports (hunks with old_count = 0 for pure_ins).  split_file is the per-file body
-   of VirtualAttributions::to_authorship_log_and_initial_working_log; split_exact (Model/Split.v)
-   says: every AI-claimed line x of W is in exactly one of
+   W work tree.  committed P C / unstaged C W / hunks_of C W are the added-line numbers and the hunk
+   extents that `git diff -U0` reports.  split_file is the per-file body of
+   VirtualAttributions::to_authorship_log_and_initial_working_log WITH the repair of the work-tree ->
+   commit line translation (each hunk that ends before a line shifts it by old_count - new_count);
+   split_exact (Model/Split.v) says: every AI-claimed line x of W is in exactly one of
      (i)   x in C, not in P: the note lists x's position in C for x's author, INITIAL does not list it
      (ii)  x not in C: INITIAL lists x's position in W for x's author
      (iii) x in C and in P: listed nowhere
    every listed line comes from such a claim (nothing else, nothing human), no (author, line)
    pair is listed twice and no line is listed for two authors.
 
-   Full-strength statement (all P C W with wf3 P C W = true and all well-formed attrs):
-       exists note ini, run_spec P C W attrs = SOk note ini /\ split_exact P C W attrs note ini
-   It is FALSE of the faithful model: C04_deletion_refuted (unstaged deletion above staged AI
-   lines), C04_modify_refuted (unstaged 1:1 modification of a pre-existing line above staged AI
-   lines), C04_hidden_refuted (unstaged rewrite of a just-committed line whose work-tree number is a
-   committed line number: the filter step hides it).  C04_split_exact is the statement under the
-   boolean side condition shift_consistent = no_hidden && offsets_ok (Model/Split.v);
-   C04_struct_implies_consistent gives its structural reading no_hidden && tail_only;
-   Known_C04 = negb shift_consistent. *)
+   History.  Before the repair the translation subtracted only the unstaged added lines above a
+   line; the statement then needed the side condition "deletions / replacements only below every kept
+   line" and was refuted by an unstaged deletion (C04-K1) and an unstaged 1:1 modification (C04-K2)
+   above staged AI lines.  Those witnesses are now positive theorems (C04_deletion_fixed,
+   C04_modify_fixed) and C04_split_exact holds for every order-preserving C, W.
+
+   Full-strength statement (all P C W with wf3 P C W = true and all well-formed attrs) is still
+   FALSE of the faithful model in one deliberate case: C04_hidden_refuted (an unstaged rewrite of a
+   just-committed line is credited to the commit, C04-K3).  The remaining side condition is the
+   boolean no_hidden; Known_C04 = negb no_hidden.  C04_unkept_line_unrecorded states the limit C04-K4. *)
 From Coq Require Import List NArith Bool Sorted.
 From Verif Require Import Base.Str Base.RangeSet Gen.GenSplit Model.Split Model.SplitCarry
      Proofs.SplitProofs Proofs.SplitCarryProofs.
@@ -38,34 +40,34 @@ Theorem C04_compress_wf : forall l, StronglySorted N.lt l -> ranges_wf (compress
 Proof. exact compress_wf. Qed.
 Print Assumptions C04_compress_wf.
 
-Theorem C04_split_no_panic :
-  forall attrs K U Pu, StronglySorted N.lt U -> split_file attrs K U Pu <> SPanic.
+Theorem C04_split_no_panic : forall attrs K U H, split_file attrs K U H <> SPanic.
 Proof. exact split_no_panic. Qed.
 Print Assumptions C04_split_no_panic.
 
+(* the repaired translation is exact for every kept line, whatever was inserted, deleted or
+   rewritten above it *)
+Theorem C04_translation_exact :
+  forall C W w x c, ordered C W = true -> at_pos W w x -> index_of x C = Some c ->
+  to_commit_line (hunks_of C W) w = Some c.
+Proof. exact to_commit_line_exact. Qed.
+Print Assumptions C04_translation_exact.
+
 Theorem C04_split_exact :
-  forall P C W, NoDup W -> shift_consistent P C W = true ->
+  forall P C W, NoDup W -> ordered C W = true -> no_hidden P C W = true ->
   forall attrs, attrs_wf W attrs ->
   exists note ini,
-    split_file attrs (committed P C) (unstaged C W) (pure_ins C W) = SOk note ini /\
+    split_file attrs (committed P C) (unstaged C W) (hunks_of C W) = SOk note ini /\
     split_exact P C W attrs note ini.
 Proof. exact split_exact_holds. Qed.
 Print Assumptions C04_split_exact.
 
-Theorem C04_struct_implies_consistent :
-  forall P C W, NoDup C -> NoDup W -> same_order C W = true ->
-  shift_consistent_struct P C W = true -> shift_consistent P C W = true.
-Proof. exact struct_implies_sc. Qed.
-Print Assumptions C04_struct_implies_consistent.
-
-Theorem C04_split_exact_insertions :
-  forall P C W attrs, NoDup C -> NoDup W -> same_order C W = true ->
-  (forall x, In x C -> In x W) -> attrs_wf W attrs ->
-  exists note ini,
-    split_file attrs (committed P C) (unstaged C W) (pure_ins C W) = SOk note ini /\
-    split_exact P C W attrs note ini.
-Proof. exact split_exact_insertions. Qed.
-Print Assumptions C04_split_exact_insertions.
+(* the same with every hypothesis decidable *)
+Theorem C04_split_exact_decidable :
+  forall P C W attrs,
+  wf3 P C W = true -> attrs_wfb W attrs = true -> no_hidden P C W = true ->
+  exists note ini, run_spec P C W attrs = SOk note ini /\ split_exact P C W attrs note ini.
+Proof. exact split_exact_decidable. Qed.
+Print Assumptions C04_split_exact_decidable.
 
 (* limit of the split (known class C04-K4): a line of the commit that the work tree no longer has
    is recorded for nobody, whoever wrote it *)
@@ -82,9 +84,9 @@ Print Assumptions C04_unkept_line_unrecorded.
    INITIAL keeps exactly the non-human claims, once, and the note gets nothing: whatever other files
    have checkpoints (cps), whatever else INITIAL names. *)
 Theorem C04_carry :
-  forall cps ini_files keep f attrs U Pu,
+  forall cps ini_files keep f attrs U H,
   In f ini_files -> StronglySorted N.lt U -> (forall a w, claim attrs w a -> In w U) ->
-  exists ini, post_commit_file cps ini_files keep f attrs [] U Pu = SOk [] ini /\
+  exists ini, post_commit_file cps ini_files keep f attrs [] U H = SOk [] ini /\
     (forall a w, init_lists ini a w = true <-> a <> human /\ claim attrs w a) /\
     NoDup (init_lines ini).
 Proof. exact carry. Qed.
@@ -92,37 +94,37 @@ Print Assumptions C04_carry.
 
 (* why the pathspec union matters: a file outside the pathspecs loses every claim *)
 Theorem C04_carry_needs_pathspec :
-  forall cps ini_files keep f attrs K U Pu,
+  forall cps ini_files keep f attrs K U H,
   path_mem f (post_commit_pathspecs cps ini_files keep) = false ->
-  post_commit_file cps ini_files keep f attrs K U Pu = SOk [] [].
+  post_commit_file cps ini_files keep f attrs K U H = SOk [] [].
 Proof. exact not_in_pathspecs_forgotten. Qed.
 Print Assumptions C04_carry_needs_pathspec.
 
-Theorem C04_deletion_refuted : refuted [1] [1; 2] [2] [ai 1 1].
-Proof. exact deletion_refuted. Qed.
-Print Assumptions C04_deletion_refuted.
+(* regression witnesses of the repaired defects C04-K1 / C04-K2 (formerly C04_deletion_refuted,
+   C04_modify_refuted): the side condition holds and the split is exact *)
+Theorem C04_deletion_fixed : holds [1] [1; 2] [2] [ai 1 1] [(s1, [LSingle 2])] [].
+Proof. exact deletion_fixed. Qed.
+Print Assumptions C04_deletion_fixed.
 
-Theorem C04_modify_refuted : refuted [1] [1; 2] [3; 2] [ai 2 2].
-Proof. exact modify_refuted. Qed.
-Print Assumptions C04_modify_refuted.
+Theorem C04_modify_fixed : holds [1] [1; 2] [3; 2] [ai 2 2] [(s1, [LSingle 2])] [].
+Proof. exact modify_fixed. Qed.
+Print Assumptions C04_modify_fixed.
 
 Theorem C04_hidden_refuted : refuted [1] [1; 2] [1; 3] [ai 2 2].
 Proof. exact hidden_refuted. Qed.
 Print Assumptions C04_hidden_refuted.
 
 (* non-vacuity: a partial commit with unstaged pure insertions above, inside and below the
-   committed AI lines meets the side condition, and the model output is the expected split *)
+   committed AI lines; and one with an unstaged deletion, modification and insertion above and a
+   replaced tail below them *)
 Example C04_nonvacuous :
-  wf3 nv_P nv_C nv_W = true /\ attrs_wfb nv_W nv_attrs = true /\
-  shift_consistent nv_P nv_C nv_W = true /\
-  (committed nv_P nv_C, unstaged nv_C nv_W, pure_ins nv_C nv_W) = ([3; 4], [2; 5; 8], [2; 5; 8]) /\
-  run_spec nv_P nv_C nv_W nv_attrs
-  = SOk [(s1, [LRange 3 4])] [ai 2 2; ai 5 5; ai 8 8].
+  (committed nv_P nv_C, unstaged nv_C nv_W, hunks_of nv_C nv_W)
+    = ([3; 4], [2; 5; 8], [(0, 2, 1); (0, 5, 1); (0, 8, 1)]) /\
+  holds nv_P nv_C nv_W nv_attrs [(s1, [LRange 3 4])] [ai 2 2; ai 5 5; ai 8 8].
 Proof. exact nonvacuous. Qed.
 
-Example C04_nonvacuous_tail :
-  wf3 [1; 2] [1; 10; 2] [11; 1; 10; 12] = true /\
-  shift_consistent [1; 2] [1; 10; 2] [11; 1; 10; 12] = true /\
-  run_spec [1; 2] [1; 10; 2] [11; 1; 10; 12] [ai 1 1; ai 3 4]
-  = SOk [(s1, [LSingle 2])] [ai 1 1; ai 4 4].
-Proof. exact nonvacuous_tail. Qed.
+Example C04_nonvacuous_edits_above :
+  hunks_of [1; 2; 4; 10; 11; 3] [20; 4; 21; 10; 11; 22] = [(2, 1, 1); (0, 3, 1); (1, 6, 1)] /\
+  holds [1; 2; 4; 3] [1; 2; 4; 10; 11; 3] [20; 4; 21; 10; 11; 22] [ai 3 5]
+        [(s1, [LRange 4 5])] [ai 3 3].
+Proof. exact nonvacuous_edits_above. Qed.
